@@ -1,5 +1,6 @@
 #!/bin/bash
 # Runs the pinned baseline suite of /repo (or $1) and compares with /root/.vp/BASELINE.json.
+unset GOTOOLCHAIN GOFLAGS GOPROXY GOSUMDB
 # Development helper only: no registered check calls this (the checks are static).
 R=${1:-/repo}
 cd "$R" || exit 2
